@@ -48,13 +48,17 @@ def exhaustive(tier, wd, res):
     """Design check of the forwarding model (runs beside the cluster)."""
     try:
         quick = tier == "quick"
-        runs = [("three-requests", mc_cfg(ops='"lockw", "unlock"') if quick else mc_cfg()),
-                ("all-ops-two-faults-demote", mc_cfg(ops=ALLOPS, maxreq=2, faults=2, demote="TRUE")),
-                ("deviations-repaired", mc_cfg(ops=ALLOPS, maxreq=2, faults=2, demote="TRUE", rlo="FALSE", ftl="FALSE",
-                                               invs=INVS + " NoOrphan"))]
-        if not quick:
-            runs.append(("three-requests-two-faults", mc_cfg(faults=2, demote="TRUE")))
-            runs.append(("two-binary-connections", mc_cfg(bin='"b1", "b2"', text="", maxreq=3, faults=2)))
+        if quick:
+            # (about 0.6 million states in all: the quick tier shares the machine with the cluster run; two faults, the repaired
+            #  deviations and the 3 M / 10 M state configurations are in the thorough tier)
+            runs = [("three-requests", mc_cfg(ops='"lockw", "unlock"', dir="")),
+                    ("all-ops-one-fault-demote", mc_cfg(ops=ALLOPS, maxreq=2, faults=1, demote="TRUE"))]
+        else:
+            runs = [("three-requests", mc_cfg()),
+                    ("all-ops-two-faults-demote", mc_cfg(ops=ALLOPS, maxreq=2, faults=2, demote="TRUE")),
+                    ("deviations-repaired", mc_cfg(ops=ALLOPS, maxreq=2, faults=2, demote="TRUE", rlo="FALSE", ftl="FALSE", invs=INVS + " NoOrphan")),
+                    ("three-requests-two-faults", mc_cfg(faults=2, demote="TRUE")),
+                    ("two-binary-connections", mc_cfg(bin='"b1", "b2"', text="", maxreq=3, faults=2))]
         out = []
         for name, cfg in runs:
             r = vtlc.run_tlc(os.path.join(VERIF, "spec"), "Forward", cfg, os.path.join(wd, "mc_" + name), workers=max(2, engine.NCPU - 2),
@@ -294,15 +298,15 @@ def run_part(out, tier, seed, wd):
     nbeh = 50 if quick else 600
     nrnd = 70 if quick else 900
     laps = {}
+    # (1) exhaustive design check, beside everything else
+    mcres = {}
+    th = threading.Thread(target=exhaustive, args=(tier, os.path.join(wd, "mc"), mcres))
+    th.start()
     # (2a) behaviours from the model
     behs, prom_behs, nraw = behaviours(seed, nbeh, os.path.join(wd, "sim"))
     if len(behs) < min(20, nbeh):
         raise InfraError(f"behaviour generation produced only {len(behs)} behaviours")
     laps["simulate_s"] = round(time.time() - t_start, 1)
-    # (1) exhaustive design check, beside the cluster run
-    mcres = {}
-    th = threading.Thread(target=exhaustive, args=(tier, os.path.join(wd, "mc"), mcres))
-    th.start()
     cluster = None
     try:
         binp = rc.build_server(wd)
